@@ -302,6 +302,8 @@ func substDesc(fn *ssa.Function, c *ssa.Call, g *ssa.Function, d string, depth i
 
 func c11(r *Report, s *Sem) {
 	p := r.P
+	R8 := r.Rule("R8", "what the builders copy verbatim is accepted as is: the decoders of the envelope base and of the reply kinds make no refusal of their own on id, from, pp or to (a reply to a request without id carries no id and must still decode)", 3)
+	checkRepliesDecodable(r, s, R8)
 	defer r.Import(s, "C01", "R1", "R6", "a reply's resource survives the wire: every exported field of every envelope kind and document wrapper is written by its encoder and restored by its decoder (a decoder rebuilt on a constructor drops what the constructor derives, e.g. a collection's total)", 60)
 	defer r.Import(s, "C01", "R10", "R7", "a reply's resource type survives the wire: the text form of a media type (and of the addresses) omits a field only where it is empty", 3)
 	R1 := r.Rule("R1", "Envelope.Sender returns the delegation node (PP) exactly on the edge where PP is non-zero, and From on the edge where PP is zero", 2)
